@@ -238,6 +238,42 @@ def n20_for_enumerate_zip(src, log):
             hit = (i, body, inner[0].strip(), inner[1].strip(), outer[1].strip(), a, b)
             break
         if hit is None:
+            # second spelling of the same iteration: for (I, (X, Y)) in A.iter().zip(B.iter()).enumerate() { BODY }
+            for i, t in enumerate(toks):
+                if not (t.text == "for" and t.kind == "ident" and i + 1 < len(toks) and toks[i + 1].text == "("):
+                    continue
+                pc = toks[i + 1].mate
+                outer = _split_args(src, toks, i + 1)
+                if len(outer) != 2 or toks[pc + 1].text != "in" or not outer[1].strip().startswith("("):
+                    continue
+                # the inner pair (X, Y)
+                ip = next((x for x in range(i + 2, pc) if toks[x].text == "(" and toks[x].depth == toks[i + 1].depth + 1), None)
+                if ip is None:
+                    continue
+                inner = _split_args(src, toks, ip)
+                if len(inner) != 2:
+                    continue
+                k = pc + 2
+                d = t.depth
+                while k < len(toks) and not (toks[k].text == "{" and toks[k].depth == d):
+                    if toks[k].kind == "open":
+                        k = toks[k].mate
+                    k += 1
+                body = k
+                # .. A .iter().zip( B .iter() ).enumerate() {
+                if [toks[x].text for x in range(body - 4, body)] != [".", "enumerate", "(", ")"] or toks[body - 5].text != ")":
+                    continue
+                zo = toks[body - 5].mate
+                if [toks[x].text for x in range(zo - 5, zo + 1)] != [".", "iter", "(", ")", ".", "zip"][0:5] + ["("] and \
+                   [toks[x].text for x in range(zo - 6, zo + 1)] != [".", "iter", "(", ")", ".", "zip", "("]:
+                    continue
+                if [toks[x].text for x in range(body - 9, body - 5)] != [".", "iter", "(", ")"]:
+                    continue
+                a = src[toks[pc + 2].start:toks[zo - 7].end]
+                b = src[toks[zo + 1].start:toks[body - 10].end]
+                hit = (i, body, outer[0].strip(), inner[0].strip(), inner[1].strip(), a, b)
+                break
+        if hit is None:
             return src
         i, body, I, X, Y, a, b = hit
         # a `while` with the counter advanced at the head of the body: `continue` in BODY keeps its meaning (next element)
